@@ -438,6 +438,7 @@ class Engine:
                 if fr.contract is not None:
                     vc.reveal = tuple(fr.contract.reveal)
                     vc.unfold_only = fr.contract.unfold_only
+                    vc.budget = getattr(fr.contract, "budget", 1)
                 self.vcs[dig] = vc
                 self.order.append(dig)
         else:
